@@ -14,6 +14,7 @@ use crate::observe_struct;
 use crate::probes::*;
 use crate::world::SimBuildHasher as B;
 
+#[cfg(not(skip = "S1"))]
 #[derive(FromMeta)]
 pub struct S1 {
     a: PM<101>,
@@ -23,8 +24,10 @@ pub struct S1 {
     #[darling(default = pdef::<104>)]
     d: PM<104>,
 }
+#[cfg(not(skip = "S1"))]
 observe_struct!(S1 { a, b, c, d });
 
+#[cfg(not(skip = "S2"))]
 #[derive(FromMeta)]
 pub struct S2 {
     #[darling(multiple)]
@@ -34,8 +37,10 @@ pub struct S2 {
     #[darling(multiple, rename = "o")]
     mo: Vec<PM<203>>,
 }
+#[cfg(not(skip = "S2"))]
 observe_struct!(S2 { m, n, mo });
 
+#[cfg(not(skip = "S3"))]
 #[derive(FromMeta)]
 pub struct S3 {
     #[darling(with = pw::<301>)]
@@ -47,8 +52,10 @@ pub struct S3 {
     #[darling(with = pw::<304>, and_then = pthen::<304>, default)]
     d: PM<304>,
 }
+#[cfg(not(skip = "S3"))]
 observe_struct!(S3 { a, b, c, d });
 
+#[cfg(not(skip = "S4"))]
 #[derive(FromMeta)]
 pub struct S4 {
     #[darling(skip)]
@@ -58,8 +65,10 @@ pub struct S4 {
     #[darling(rename = "x")]
     r: PM<403>,
 }
+#[cfg(not(skip = "S4"))]
 observe_struct!(S4 { s, t, r });
 
+#[cfg(not(skip = "S5"))]
 #[derive(FromMeta)]
 #[darling(default)]
 pub struct S5 {
@@ -68,7 +77,9 @@ pub struct S5 {
     #[darling(default = pdef::<503>)]
     c: PM<503>,
 }
+#[cfg(not(skip = "S5"))]
 observe_struct!(S5 { a, b, c });
+#[cfg(not(skip = "S5"))]
 impl Default for S5 {
     fn default() -> Self {
         container_default_seam(500);
@@ -76,11 +87,13 @@ impl Default for S5 {
     }
 }
 
+#[cfg(not(skip = "S6"))]
 fn df_s6() -> S6 {
     container_default_seam(600);
     S6 { a: PM(Tok::DefaultFn(601)), s: PM(Tok::DefaultFn(602)) }
 }
 
+#[cfg(not(skip = "S6"))]
 #[derive(FromMeta)]
 #[darling(default = df_s6)]
 pub struct S6 {
@@ -88,39 +101,49 @@ pub struct S6 {
     #[darling(skip)]
     s: PM<602>,
 }
+#[cfg(not(skip = "S6"))]
 observe_struct!(S6 { a, s });
 
+#[cfg(not(skip = "S7"))]
 fn at_s7(v: S7) -> darling::Result<S7> {
     cthen::<700, S7>(v)
 }
 
+#[cfg(not(skip = "S7"))]
 #[derive(FromMeta)]
 #[darling(and_then = at_s7)]
 pub struct S7 {
     a: PM<701>,
     b: PM<702>,
 }
+#[cfg(not(skip = "S7"))]
 observe_struct!(S7 { a, b });
 
+#[cfg(not(skip = "S8"))]
 fn mp_s8(v: S8) -> S8 {
     cmap::<800, S8>(v)
 }
 
+#[cfg(not(skip = "S8"))]
 #[derive(FromMeta)]
 #[darling(map = mp_s8)]
 pub struct S8 {
     a: PM<801>,
 }
+#[cfg(not(skip = "S8"))]
 observe_struct!(S8 { a });
 
+#[cfg(not(skip = "S9"))]
 #[derive(FromMeta)]
 #[darling(rename_all = "camelCase", allow_unknown_fields)]
 pub struct S9 {
     long_name: PM<901>,
     other_one: Option<PM<902>>,
 }
+#[cfg(not(skip = "S9"))]
 observe_struct!(S9 { long_name, other_one });
 
+#[cfg(not(skip = "S10"))]
 #[derive(FromMeta)]
 pub struct S10 {
     h: PH<1001>,
@@ -128,8 +151,10 @@ pub struct S10 {
     #[darling(multiple)]
     j: Vec<PH<1003>>,
 }
+#[cfg(not(skip = "S10"))]
 observe_struct!(S10 { h, i, j });
 
+#[cfg(not(skip = "S11"))]
 #[derive(FromMeta)]
 pub struct S11 {
     u: u8,
@@ -139,8 +164,10 @@ pub struct S11 {
     p: PM<1101>,
     ou: Option<u8>,
 }
+#[cfg(not(skip = "S11"))]
 observe_struct!(S11 { u, t, s, c, p, ou });
 
+#[cfg(not(any(skip = "N1", skip = "S1", skip = "S5")))]
 #[derive(FromMeta)]
 pub struct N1 {
     inner: S1,
@@ -148,92 +175,116 @@ pub struct N1 {
     #[darling(default)]
     d: S5,
 }
+#[cfg(not(any(skip = "N1", skip = "S1", skip = "S5")))]
 observe_struct!(N1 { inner, opt, d });
 
+#[cfg(not(any(skip = "N1", skip = "N2", skip = "S1", skip = "S5")))]
 #[derive(FromMeta)]
 pub struct N2 {
     n1: N1,
     p: PM<1301>,
 }
+#[cfg(not(any(skip = "N1", skip = "N2", skip = "S1", skip = "S5")))]
 observe_struct!(N2 { n1, p });
 
+#[cfg(not(skip = "Rec"))]
 #[derive(FromMeta)]
 pub struct Rec {
     child: Option<Box<Rec>>,
     leaf: Option<PM<1401>>,
 }
+#[cfg(not(skip = "Rec"))]
 observe_struct!(Rec { child, leaf });
 
+#[cfg(not(any(skip = "F1", skip = "S1")))]
 #[derive(FromMeta)]
 pub struct F1 {
     a: PM<1501>,
     #[darling(flatten)]
     rest: S1,
 }
+#[cfg(not(any(skip = "F1", skip = "S1")))]
 observe_struct!(F1 { a, rest });
 
+#[cfg(not(any(skip = "F1", skip = "F2", skip = "S1")))]
 #[derive(FromMeta)]
 pub struct F2 {
     a: PM<1601>,
     #[darling(flatten)]
     rest: F1,
 }
+#[cfg(not(any(skip = "F1", skip = "F2", skip = "S1")))]
 observe_struct!(F2 { a, rest });
 
+#[cfg(not(skip = "F3"))]
 #[derive(FromMeta)]
 pub struct F3 {
     a: PM<1701>,
     #[darling(flatten)]
     rest: HashMap<String, PM<1702>, B>,
 }
+#[cfg(not(skip = "F3"))]
 observe_struct!(F3 { a, rest });
 
+#[cfg(not(any(skip = "F4", skip = "S1")))]
 #[derive(FromMeta)]
 pub struct F4 {
     a: PM<1801>,
     #[darling(flatten)]
     rest: darling::Result<S1>,
 }
+#[cfg(not(any(skip = "F4", skip = "S1")))]
 observe_struct!(F4 { a, rest });
 
+#[cfg(not(skip = "U1"))]
 #[derive(FromMeta)]
 pub struct U1;
+#[cfg(not(skip = "U1"))]
 impl Observe for U1 {
     fn observe(&self) -> Val {
         Val::Struct("U1".into(), vec![])
     }
 }
 
+#[cfg(not(skip = "NT1"))]
 #[derive(FromMeta)]
 pub struct NT1(PM<1901>);
+#[cfg(not(skip = "NT1"))]
 impl Observe for NT1 {
     fn observe(&self) -> Val {
         self.0.observe()
     }
 }
 
+#[cfg(not(any(skip = "NT2", skip = "S1")))]
 #[derive(FromMeta)]
 pub struct NT2(S1);
+#[cfg(not(any(skip = "NT2", skip = "S1")))]
 impl Observe for NT2 {
     fn observe(&self) -> Val {
         self.0.observe()
     }
 }
 
+#[cfg(not(skip = "W1"))]
 fn w1_word() -> darling::Result<W1> {
     cword::<2000, W1>()
 }
+#[cfg(not(skip = "W1"))]
 fn w1_none() -> Option<W1> {
     cnone::<2000, W1>()
 }
 
+#[cfg(not(skip = "W1"))]
 #[derive(FromMeta, Default)]
 #[darling(from_word = w1_word, from_none = w1_none)]
 pub struct W1 {
     a: Option<PM<2001>>,
 }
+#[cfg(not(skip = "W1"))]
 observe_struct!(W1 { a });
 
+#[cfg(not(any(skip = "E1", skip = "Rec")))]
 #[derive(FromMeta)]
 pub enum E1 {
     Unit,
@@ -248,6 +299,7 @@ pub enum E1 {
         b: Option<PM<2104>>,
     },
 }
+#[cfg(not(any(skip = "E1", skip = "Rec")))]
 impl Observe for E1 {
     fn observe(&self) -> Val {
         match self {
@@ -264,6 +316,7 @@ impl Observe for E1 {
     }
 }
 
+#[cfg(not(skip = "E2"))]
 #[derive(FromMeta)]
 #[darling(rename_all = "SCREAMING_SNAKE_CASE", allow_unknown_fields)]
 pub enum E2 {
@@ -277,6 +330,7 @@ pub enum E2 {
         a: PM<2202>,
     },
 }
+#[cfg(not(skip = "E2"))]
 impl Observe for E2 {
     fn observe(&self) -> Val {
         match self {
@@ -287,21 +341,25 @@ impl Observe for E2 {
     }
 }
 
+#[cfg(not(any(skip = "E3", skip = "S1")))]
 fn e3_word() -> darling::Result<E3> {
     cword::<2300, E3>()
 }
 
+#[cfg(not(any(skip = "E3", skip = "S1")))]
 #[derive(FromMeta)]
 #[darling(from_word = e3_word)]
 pub enum E3 {
     A,
     B(S1),
 }
+#[cfg(not(any(skip = "E3", skip = "S1")))]
 impl Default for E3 {
     fn default() -> Self {
         E3::A
     }
 }
+#[cfg(not(any(skip = "E3", skip = "S1")))]
 impl Observe for E3 {
     fn observe(&self) -> Val {
         match self {
@@ -311,6 +369,7 @@ impl Observe for E3 {
     }
 }
 
+#[cfg(not(any(skip = "E1", skip = "E2", skip = "EH", skip = "Rec")))]
 #[derive(FromMeta)]
 pub struct EH {
     e: E1,
@@ -318,8 +377,10 @@ pub struct EH {
     #[darling(multiple)]
     g: Vec<E1>,
 }
+#[cfg(not(any(skip = "E1", skip = "E2", skip = "EH", skip = "Rec")))]
 observe_struct!(EH { e, f, g });
 
+#[cfg(not(skip = "WR"))]
 #[derive(FromMeta)]
 pub struct WR {
     b: Box<PM<2501>>,
@@ -331,8 +392,10 @@ pub struct WR {
     ov: Option<Override<PH<2507>>>,
     sh: Option<SpannedValue<PH<2508>>>,
 }
+#[cfg(not(skip = "WR"))]
 observe_struct!(WR { b, r, res, rm, sv, wo, ov, sh });
 
+#[cfg(not(skip = "MP"))]
 #[derive(FromMeta)]
 pub struct MP {
     #[darling(default)]
@@ -354,6 +417,7 @@ pub struct MP {
     #[darling(default)]
     hph: HashMap<String, PH<2607>, B>,
 }
+#[cfg(not(skip = "MP"))]
 observe_struct!(MP { hs, hi, hp, bs, bi, hh, hb, hu, hph });
 
 // ------------------------------------------------------------------------------------------------
@@ -367,15 +431,6 @@ pub enum MetaEntry {
     FromList,
     FromNone,
     FromWord,
-}
-
-macro_rules! meta_dispatch {
-    ($name:expr, $entry:expr, $meta:expr, [$($t:ident),*]) => {
-        match $name {
-            $(stringify!($t) => Some(run_meta::<$t>($entry, $meta)),)*
-            _ => None,
-        }
-    };
 }
 
 pub fn run_meta<T: FromMeta + Observe>(entry: &MetaEntry, meta: &syn::Meta) -> Result<Option<V>, darling::Error> {
@@ -394,6 +449,7 @@ pub fn run_meta<T: FromMeta + Observe>(entry: &MetaEntry, meta: &syn::Meta) -> R
     }
 }
 
+#[cfg(not(skip = "S12"))]
 #[derive(FromMeta)]
 pub struct S12 {
     v: PV<1201>,
@@ -405,8 +461,10 @@ pub struct S12 {
     bv: Option<Box<PE<1206>>>,
     ovr: Option<Override<PV<1207>>>,
 }
+#[cfg(not(skip = "S12"))]
 observe_struct!(S12 { v, ov, e, me, sv, bv, ovr });
 
+#[cfg(not(skip = "S13"))]
 #[derive(FromMeta)]
 pub struct S13 {
     fl: darling::util::Flag,
@@ -415,9 +473,11 @@ pub struct S13 {
     sb: Option<SpannedValue<bool>>,
     p: Option<PM<1311>>,
 }
+#[cfg(not(skip = "S13"))]
 observe_struct!(S13 { fl, pl, pl2, sb, p });
 
 // pairs and triples of field options used together
+#[cfg(not(skip = "S14"))]
 #[derive(FromMeta)]
 pub struct S14 {
     #[darling(multiple, with = pw::<5101>)]
@@ -443,13 +503,16 @@ pub struct S14 {
     #[darling(rename = "ro", default, map = pmap::<5111>)]
     rmap: PM<5111>,
 }
+#[cfg(not(skip = "S14"))]
 observe_struct!(S14 { mw, mm, ma, wm, wd, ad, rw, md, mrd, wo, rmap });
 
+#[cfg(not(any(skip = "S1", skip = "S15")))]
 fn s15_then(v: S15) -> darling::Result<S15> {
     cthen::<5210, S15>(v)
 }
 
 // container default + and_then + allow_unknown_fields next to flatten, multiple and skip
+#[cfg(not(any(skip = "S1", skip = "S15")))]
 #[derive(FromMeta)]
 #[darling(default, and_then = s15_then, allow_unknown_fields)]
 pub struct S15 {
@@ -461,7 +524,9 @@ pub struct S15 {
     #[darling(skip)]
     sk: PM<5203>,
 }
+#[cfg(not(any(skip = "S1", skip = "S15")))]
 observe_struct!(S15 { a, m, rest, sk });
+#[cfg(not(any(skip = "S1", skip = "S15")))]
 impl Default for S15 {
     fn default() -> Self {
         container_default_seam(5200);
@@ -475,6 +540,7 @@ impl Default for S15 {
 }
 
 // allow_unknown_fields + flatten without a container default
+#[cfg(not(any(skip = "S1", skip = "S16")))]
 #[derive(FromMeta)]
 #[darling(allow_unknown_fields)]
 pub struct S16 {
@@ -482,8 +548,10 @@ pub struct S16 {
     #[darling(flatten)]
     rest: S1,
 }
+#[cfg(not(any(skip = "S1", skip = "S16")))]
 observe_struct!(S16 { a, rest });
 
+#[cfg(not(skip = "E4"))]
 #[derive(FromMeta)]
 #[darling(rename_all = "lowercase")]
 pub enum E4 {
@@ -506,6 +574,7 @@ pub enum E4 {
         r: PM<5307>,
     },
 }
+#[cfg(not(skip = "E4"))]
 impl Observe for E4 {
     fn observe(&self) -> Val {
         match self {
@@ -524,16 +593,20 @@ impl Observe for E4 {
 }
 
 // a receiver none of whose fields can be named in the input (unknown-name error without alternatives)
+#[cfg(not(skip = "S17"))]
 #[derive(FromMeta)]
 pub struct S17 {
     #[darling(skip)]
     s: PM<5801>,
 }
+#[cfg(not(skip = "S17"))]
 observe_struct!(S17 { s });
 
 // an enum without variants
+#[cfg(not(skip = "E5"))]
 #[derive(FromMeta)]
 pub enum E5 {}
+#[cfg(not(skip = "E5"))]
 impl Observe for E5 {
     fn observe(&self) -> Val {
         match *self {}
@@ -541,6 +614,7 @@ impl Observe for E5 {
 }
 
 // built-in and library conversions (judged for totality only)
+#[cfg(not(skip = "L1"))]
 #[derive(FromMeta)]
 pub struct L1 {
     i8: Option<i8>,
@@ -562,6 +636,7 @@ pub struct L1 {
     f64: Option<f64>,
 }
 
+#[cfg(not(skip = "L2"))]
 #[derive(FromMeta)]
 pub struct L2 {
     string: Option<String>,
@@ -586,6 +661,7 @@ pub struct L2 {
     exprrange: Option<syn::ExprRange>,
 }
 
+#[cfg(not(skip = "L3"))]
 #[derive(FromMeta)]
 pub struct L3 {
     vlitstr: Option<Vec<syn::LitStr>>,
@@ -619,21 +695,39 @@ macro_rules! opaque {
         }
     )*};
 }
-opaque!(L1, L2, L3);
+#[cfg(not(skip = "L1"))]
+opaque!(L1);
+#[cfg(not(skip = "L2"))]
+opaque!(L2);
+#[cfg(not(skip = "L3"))]
+opaque!(L3);
 
 // keyed collections as root targets; R?H* hash maps and their ordered twins R?B* share site ids
+#[cfg(not(skip = "RHS"))]
 pub type RHS = HashMap<String, PM<2701>, B>;
+#[cfg(not(skip = "RBS"))]
 pub type RBS = BTreeMap<String, PM<2701>>;
+#[cfg(not(skip = "RHI"))]
 pub type RHI = HashMap<syn::Ident, PM<2702>, B>;
+#[cfg(not(skip = "RBI"))]
 pub type RBI = BTreeMap<syn::Ident, PM<2702>>;
+#[cfg(not(skip = "RHP"))]
 pub type RHP = HashMap<syn::Path, PM<2703>, B>;
+#[cfg(not(skip = "RHN"))]
 pub type RHN = HashMap<String, HashMap<String, PM<2704>, B>, B>;
+#[cfg(not(skip = "RBN"))]
 pub type RBN = BTreeMap<String, BTreeMap<String, PM<2704>>>;
+#[cfg(not(skip = "RHH"))]
 pub type RHH = HashMap<String, PH<2705>, B>;
+#[cfg(not(skip = "RBH"))]
 pub type RBH = BTreeMap<String, PH<2705>>;
+#[cfg(not(skip = "RHB"))]
 pub type RHB = HashMap<String, bool, B>;
+#[cfg(not(skip = "RBB"))]
 pub type RBB = BTreeMap<String, bool>;
+#[cfg(not(skip = "RHU"))]
 pub type RHU = HashMap<String, u8, B>;
+#[cfg(not(skip = "RBU"))]
 pub type RBU = BTreeMap<String, u8>;
 
 /// Run a FromMeta-family entry point of the named receiver. `None` = unknown receiver name.
@@ -641,12 +735,113 @@ pub fn run_meta_receiver(name: &str, entry: &MetaEntry, meta: &syn::Meta) -> Opt
     if let Some(r) = crate::gen_corpus::run_gen_meta(name, entry, meta) {
         return Some(r);
     }
-    meta_dispatch!(
-        name,
-        entry,
-        meta,
-        [S1, S2, S3, S4, S5, S6, S7, S8, S9, S10, S11, S12, S13, S14, S15, S16, S17, E4, E5, N1, N2, Rec, F1, F2, F3, F4, U1, NT1, NT2, W1, E1, E2, E3, EH, WR, MP, L1, L2, L3, RHS, RBS, RHI, RBI, RHP, RHN, RBN, RHH, RBH, RHB, RBB, RHU, RBU]
-    )
+    match name {
+        #[cfg(not(skip = "S1"))]
+        "S1" => Some(run_meta::<S1>(entry, meta)),
+        #[cfg(not(skip = "S2"))]
+        "S2" => Some(run_meta::<S2>(entry, meta)),
+        #[cfg(not(skip = "S3"))]
+        "S3" => Some(run_meta::<S3>(entry, meta)),
+        #[cfg(not(skip = "S4"))]
+        "S4" => Some(run_meta::<S4>(entry, meta)),
+        #[cfg(not(skip = "S5"))]
+        "S5" => Some(run_meta::<S5>(entry, meta)),
+        #[cfg(not(skip = "S6"))]
+        "S6" => Some(run_meta::<S6>(entry, meta)),
+        #[cfg(not(skip = "S7"))]
+        "S7" => Some(run_meta::<S7>(entry, meta)),
+        #[cfg(not(skip = "S8"))]
+        "S8" => Some(run_meta::<S8>(entry, meta)),
+        #[cfg(not(skip = "S9"))]
+        "S9" => Some(run_meta::<S9>(entry, meta)),
+        #[cfg(not(skip = "S10"))]
+        "S10" => Some(run_meta::<S10>(entry, meta)),
+        #[cfg(not(skip = "S11"))]
+        "S11" => Some(run_meta::<S11>(entry, meta)),
+        #[cfg(not(skip = "S12"))]
+        "S12" => Some(run_meta::<S12>(entry, meta)),
+        #[cfg(not(skip = "S13"))]
+        "S13" => Some(run_meta::<S13>(entry, meta)),
+        #[cfg(not(skip = "S14"))]
+        "S14" => Some(run_meta::<S14>(entry, meta)),
+        #[cfg(not(any(skip = "S1", skip = "S15")))]
+        "S15" => Some(run_meta::<S15>(entry, meta)),
+        #[cfg(not(any(skip = "S1", skip = "S16")))]
+        "S16" => Some(run_meta::<S16>(entry, meta)),
+        #[cfg(not(skip = "S17"))]
+        "S17" => Some(run_meta::<S17>(entry, meta)),
+        #[cfg(not(skip = "E4"))]
+        "E4" => Some(run_meta::<E4>(entry, meta)),
+        #[cfg(not(skip = "E5"))]
+        "E5" => Some(run_meta::<E5>(entry, meta)),
+        #[cfg(not(any(skip = "N1", skip = "S1", skip = "S5")))]
+        "N1" => Some(run_meta::<N1>(entry, meta)),
+        #[cfg(not(any(skip = "N1", skip = "N2", skip = "S1", skip = "S5")))]
+        "N2" => Some(run_meta::<N2>(entry, meta)),
+        #[cfg(not(skip = "Rec"))]
+        "Rec" => Some(run_meta::<Rec>(entry, meta)),
+        #[cfg(not(any(skip = "F1", skip = "S1")))]
+        "F1" => Some(run_meta::<F1>(entry, meta)),
+        #[cfg(not(any(skip = "F1", skip = "F2", skip = "S1")))]
+        "F2" => Some(run_meta::<F2>(entry, meta)),
+        #[cfg(not(skip = "F3"))]
+        "F3" => Some(run_meta::<F3>(entry, meta)),
+        #[cfg(not(any(skip = "F4", skip = "S1")))]
+        "F4" => Some(run_meta::<F4>(entry, meta)),
+        #[cfg(not(skip = "U1"))]
+        "U1" => Some(run_meta::<U1>(entry, meta)),
+        #[cfg(not(skip = "NT1"))]
+        "NT1" => Some(run_meta::<NT1>(entry, meta)),
+        #[cfg(not(any(skip = "NT2", skip = "S1")))]
+        "NT2" => Some(run_meta::<NT2>(entry, meta)),
+        #[cfg(not(skip = "W1"))]
+        "W1" => Some(run_meta::<W1>(entry, meta)),
+        #[cfg(not(any(skip = "E1", skip = "Rec")))]
+        "E1" => Some(run_meta::<E1>(entry, meta)),
+        #[cfg(not(skip = "E2"))]
+        "E2" => Some(run_meta::<E2>(entry, meta)),
+        #[cfg(not(any(skip = "E3", skip = "S1")))]
+        "E3" => Some(run_meta::<E3>(entry, meta)),
+        #[cfg(not(any(skip = "E1", skip = "E2", skip = "EH", skip = "Rec")))]
+        "EH" => Some(run_meta::<EH>(entry, meta)),
+        #[cfg(not(skip = "WR"))]
+        "WR" => Some(run_meta::<WR>(entry, meta)),
+        #[cfg(not(skip = "MP"))]
+        "MP" => Some(run_meta::<MP>(entry, meta)),
+        #[cfg(not(skip = "L1"))]
+        "L1" => Some(run_meta::<L1>(entry, meta)),
+        #[cfg(not(skip = "L2"))]
+        "L2" => Some(run_meta::<L2>(entry, meta)),
+        #[cfg(not(skip = "L3"))]
+        "L3" => Some(run_meta::<L3>(entry, meta)),
+        #[cfg(not(skip = "RHS"))]
+        "RHS" => Some(run_meta::<RHS>(entry, meta)),
+        #[cfg(not(skip = "RBS"))]
+        "RBS" => Some(run_meta::<RBS>(entry, meta)),
+        #[cfg(not(skip = "RHI"))]
+        "RHI" => Some(run_meta::<RHI>(entry, meta)),
+        #[cfg(not(skip = "RBI"))]
+        "RBI" => Some(run_meta::<RBI>(entry, meta)),
+        #[cfg(not(skip = "RHP"))]
+        "RHP" => Some(run_meta::<RHP>(entry, meta)),
+        #[cfg(not(skip = "RHN"))]
+        "RHN" => Some(run_meta::<RHN>(entry, meta)),
+        #[cfg(not(skip = "RBN"))]
+        "RBN" => Some(run_meta::<RBN>(entry, meta)),
+        #[cfg(not(skip = "RHH"))]
+        "RHH" => Some(run_meta::<RHH>(entry, meta)),
+        #[cfg(not(skip = "RBH"))]
+        "RBH" => Some(run_meta::<RBH>(entry, meta)),
+        #[cfg(not(skip = "RHB"))]
+        "RHB" => Some(run_meta::<RHB>(entry, meta)),
+        #[cfg(not(skip = "RBB"))]
+        "RBB" => Some(run_meta::<RBB>(entry, meta)),
+        #[cfg(not(skip = "RHU"))]
+        "RHU" => Some(run_meta::<RHU>(entry, meta)),
+        #[cfg(not(skip = "RBU"))]
+        "RBU" => Some(run_meta::<RBU>(entry, meta)),
+        _ => None,
+    }
 }
 
 // ------------------------------------------------------------------------------------------------
@@ -658,6 +853,7 @@ fn ident_val(i: &syn::Ident) -> V {
     V::S(i.to_string())
 }
 
+#[cfg(not(skip = "FR1"))]
 #[derive(FromField)]
 #[darling(attributes(a))]
 pub struct FR1 {
@@ -667,6 +863,7 @@ pub struct FR1 {
     p: Option<PM<3101>>,
     q: PM<3102>,
 }
+#[cfg(not(skip = "FR1"))]
 impl Observe for FR1 {
     fn observe(&self) -> V {
         let _ = (&self.ty, &self.vis);
@@ -681,6 +878,7 @@ impl Observe for FR1 {
     }
 }
 
+#[cfg(not(any(skip = "FR2", skip = "S1")))]
 #[derive(FromField)]
 #[darling(attributes(a, b), forward_attrs)]
 pub struct FR2 {
@@ -688,8 +886,10 @@ pub struct FR2 {
     #[darling(flatten)]
     rest: S1,
 }
+#[cfg(not(any(skip = "FR2", skip = "S1")))]
 observe_struct!(FR2 { attrs, rest });
 
+#[cfg(not(skip = "FR3"))]
 #[derive(FromField)]
 #[darling(attributes(a), forward_attrs(doc, keep))]
 pub struct FR3 {
@@ -697,8 +897,10 @@ pub struct FR3 {
     attrs: AttrProbe,
     p: Option<PM<3301>>,
 }
+#[cfg(not(skip = "FR3"))]
 observe_struct!(FR3 { attrs, p });
 
+#[cfg(not(any(skip = "FR1", skip = "VR1")))]
 #[derive(FromVariant)]
 #[darling(attributes(a))]
 pub struct VR1 {
@@ -707,6 +909,7 @@ pub struct VR1 {
     fields: ast::Fields<FR1>,
     p: Option<PM<3401>>,
 }
+#[cfg(not(any(skip = "FR1", skip = "VR1")))]
 impl Observe for VR1 {
     fn observe(&self) -> V {
         let _ = &self.discriminant;
@@ -714,6 +917,7 @@ impl Observe for VR1 {
     }
 }
 
+#[cfg(not(skip = "VR2"))]
 #[derive(FromVariant)]
 #[darling(attributes(a), supports(unit, newtype))]
 pub struct VR2 {
@@ -721,12 +925,14 @@ pub struct VR2 {
     fields: ast::Fields<FP<3501>>,
     q: PM<3502>,
 }
+#[cfg(not(skip = "VR2"))]
 impl Observe for VR2 {
     fn observe(&self) -> V {
         V::Struct("VR2".into(), vec![("ident".into(), ident_val(&self.ident)), ("fields".into(), self.fields.observe()), ("q".into(), self.q.observe())])
     }
 }
 
+#[cfg(not(skip = "TR1"))]
 #[derive(FromTypeParam)]
 #[darling(attributes(a))]
 pub struct TR1 {
@@ -735,6 +941,7 @@ pub struct TR1 {
     default: Option<syn::Type>,
     p: Option<PM<3601>>,
 }
+#[cfg(not(skip = "TR1"))]
 impl Observe for TR1 {
     fn observe(&self) -> V {
         let _ = (&self.bounds, &self.default);
@@ -742,6 +949,7 @@ impl Observe for TR1 {
     }
 }
 
+#[cfg(not(any(skip = "DI1", skip = "FR1", skip = "S1", skip = "TR1", skip = "VR1")))]
 #[derive(FromDeriveInput)]
 #[darling(attributes(a, b))]
 pub struct DI1 {
@@ -752,6 +960,7 @@ pub struct DI1 {
     s: S1,
     p: Option<PM<3701>>,
 }
+#[cfg(not(any(skip = "DI1", skip = "FR1", skip = "S1", skip = "TR1", skip = "VR1")))]
 impl Observe for DI1 {
     fn observe(&self) -> V {
         let _ = &self.vis;
@@ -768,6 +977,7 @@ impl Observe for DI1 {
     }
 }
 
+#[cfg(not(any(skip = "DI2", skip = "FR2", skip = "S1", skip = "VR2")))]
 #[derive(FromDeriveInput)]
 #[darling(attributes(a), supports(struct_named, enum_unit, enum_newtype), forward_attrs)]
 pub struct DI2 {
@@ -775,8 +985,10 @@ pub struct DI2 {
     data: ast::Data<VR2, FR2>,
     q: PM<3801>,
 }
+#[cfg(not(any(skip = "DI2", skip = "FR2", skip = "S1", skip = "VR2")))]
 observe_struct!(DI2 { attrs, data, q });
 
+#[cfg(not(skip = "DI3"))]
 #[derive(FromDeriveInput)]
 #[darling(attributes(a), supports(any))]
 pub struct DI3 {
@@ -785,8 +997,10 @@ pub struct DI3 {
     generics: GP<3901>,
     p: Option<PM<3902>>,
 }
+#[cfg(not(skip = "DI3"))]
 observe_struct!(DI3 { data, generics, p });
 
+#[cfg(not(skip = "DI4"))]
 #[derive(FromDeriveInput)]
 #[darling(attributes(a), from_ident)]
 pub struct DI4 {
@@ -794,34 +1008,41 @@ pub struct DI4 {
     p: PM<4001>,
     o: Option<PM<4002>>,
 }
+#[cfg(not(skip = "DI4"))]
 impl From<syn::Ident> for DI4 {
     fn from(ident: syn::Ident) -> Self {
         from_ident_seam(4000);
         DI4 { ident, p: PM(Tok::FromIdent("p".into())), o: None }
     }
 }
+#[cfg(not(skip = "DI4"))]
 impl Observe for DI4 {
     fn observe(&self) -> V {
         V::Struct("DI4".into(), vec![("ident".into(), ident_val(&self.ident)), ("p".into(), self.p.observe()), ("o".into(), self.o.observe())])
     }
 }
 
+#[cfg(not(any(skip = "DI1", skip = "DI5", skip = "FR1", skip = "S1", skip = "TR1", skip = "VR1")))]
 #[derive(FromDeriveInput)]
 pub struct DI5(DI1);
+#[cfg(not(any(skip = "DI1", skip = "DI5", skip = "FR1", skip = "S1", skip = "TR1", skip = "VR1")))]
 impl Observe for DI5 {
     fn observe(&self) -> V {
         self.0.observe()
     }
 }
 
+#[cfg(not(skip = "DI6"))]
 #[derive(FromDeriveInput)]
 #[darling(attributes(a), supports(struct_tuple))]
 pub struct DI6 {
     data: ast::Data<(), FP<4201>>,
     p: Option<PM<4202>>,
 }
+#[cfg(not(skip = "DI6"))]
 observe_struct!(DI6 { data, p });
 
+#[cfg(not(any(skip = "AT1", skip = "S9")))]
 #[derive(FromAttributes)]
 #[darling(attributes(a, b))]
 pub struct AT1 {
@@ -831,37 +1052,46 @@ pub struct AT1 {
     #[darling(flatten)]
     rest: S9,
 }
+#[cfg(not(any(skip = "AT1", skip = "S9")))]
 observe_struct!(AT1 { p, m, rest });
 
+#[cfg(not(any(skip = "AT2", skip = "E1", skip = "Rec")))]
 #[derive(FromAttributes)]
 #[darling(attributes(a), forward_attrs(doc))]
 pub struct AT2 {
     attrs: Vec<syn::Attribute>,
     e: Option<E1>,
 }
+#[cfg(not(any(skip = "AT2", skip = "E1", skip = "Rec")))]
 observe_struct!(AT2 { attrs, e });
 
 /// forward_attrs with an explicitly empty list, no `attributes(..)`
+#[cfg(not(skip = "FR4"))]
 #[derive(FromField)]
 #[darling(forward_attrs())]
 pub struct FR4 {
     attrs: Vec<syn::Attribute>,
 }
+#[cfg(not(skip = "FR4"))]
 observe_struct!(FR4 { attrs });
 
 /// forward_attrs with an explicitly empty list next to `attributes(..)`
+#[cfg(not(skip = "DI7"))]
 #[derive(FromDeriveInput)]
 #[darling(attributes(a), forward_attrs())]
 pub struct DI7 {
     attrs: Vec<syn::Attribute>,
     p: Option<PM<4401>>,
 }
+#[cfg(not(skip = "DI7"))]
 observe_struct!(DI7 { attrs, p });
 
+#[cfg(not(skip = "FR5"))]
 fn fr5_then(v: FR5) -> darling::Result<FR5> {
     cthen::<4510, FR5>(v)
 }
 
+#[cfg(not(skip = "FR5"))]
 #[derive(FromField)]
 #[darling(attributes(a), from_ident, and_then = fr5_then, allow_unknown_fields)]
 pub struct FR5 {
@@ -869,18 +1099,21 @@ pub struct FR5 {
     p: PM<4501>,
     o: Option<PM<4502>>,
 }
+#[cfg(not(skip = "FR5"))]
 impl From<Option<syn::Ident>> for FR5 {
     fn from(ident: Option<syn::Ident>) -> Self {
         from_ident_seam(4500);
         FR5 { ident, p: PM(Tok::FromIdent("p".into())), o: None }
     }
 }
+#[cfg(not(skip = "FR5"))]
 impl Observe for FR5 {
     fn observe(&self) -> V {
         V::Struct("FR5".into(), vec![("ident".into(), self.ident.as_ref().map(ident_val).unwrap_or(V::None)), ("p".into(), self.p.observe()), ("o".into(), self.o.observe())])
     }
 }
 
+#[cfg(not(skip = "VR3"))]
 #[derive(FromVariant)]
 #[darling(attributes(a), from_ident)]
 pub struct VR3 {
@@ -889,12 +1122,14 @@ pub struct VR3 {
     p: PM<4601>,
     o: Option<PM<4602>>,
 }
+#[cfg(not(skip = "VR3"))]
 impl From<syn::Ident> for VR3 {
     fn from(ident: syn::Ident) -> Self {
         from_ident_seam(4600);
         VR3 { ident, fields: ast::Fields::new(ast::Style::Unit, vec![]), p: PM(Tok::FromIdent("p".into())), o: None }
     }
 }
+#[cfg(not(skip = "VR3"))]
 impl Observe for VR3 {
     fn observe(&self) -> V {
         V::Struct(
@@ -904,10 +1139,12 @@ impl Observe for VR3 {
     }
 }
 
+#[cfg(not(skip = "TR2"))]
 fn tr2_map(v: TR2) -> TR2 {
     cmap::<4710, TR2>(v)
 }
 
+#[cfg(not(skip = "TR2"))]
 #[derive(FromTypeParam)]
 #[darling(attributes(a), default, map = tr2_map)]
 pub struct TR2 {
@@ -915,22 +1152,26 @@ pub struct TR2 {
     p: PM<4701>,
     o: Option<PM<4702>>,
 }
+#[cfg(not(skip = "TR2"))]
 impl Default for TR2 {
     fn default() -> Self {
         container_default_seam(4700);
         TR2 { ident: syn::Ident::new("unset", proc_macro2::Span::call_site()), p: Default::default(), o: Default::default() }
     }
 }
+#[cfg(not(skip = "TR2"))]
 impl Observe for TR2 {
     fn observe(&self) -> V {
         V::Struct("TR2".into(), vec![("ident".into(), ident_val(&self.ident)), ("p".into(), self.p.observe()), ("o".into(), self.o.observe())])
     }
 }
 
+#[cfg(not(any(skip = "DI8", skip = "FR5", skip = "TR2", skip = "VR3")))]
 fn di8_then(v: DI8) -> darling::Result<DI8> {
     cthen::<4810, DI8>(v)
 }
 
+#[cfg(not(any(skip = "DI8", skip = "FR5", skip = "TR2", skip = "VR3")))]
 #[derive(FromDeriveInput)]
 #[darling(attributes(a), and_then = di8_then, allow_unknown_fields)]
 pub struct DI8 {
@@ -941,6 +1182,7 @@ pub struct DI8 {
     #[darling(multiple)]
     m: Vec<PM<4802>>,
 }
+#[cfg(not(any(skip = "DI8", skip = "FR5", skip = "TR2", skip = "VR3")))]
 impl Observe for DI8 {
     fn observe(&self) -> V {
         V::Struct(
@@ -956,6 +1198,7 @@ impl Observe for DI8 {
     }
 }
 
+#[cfg(not(skip = "VR4"))]
 #[derive(FromVariant)]
 #[darling(attributes(a), forward_attrs)]
 pub struct VR4 {
@@ -964,6 +1207,7 @@ pub struct VR4 {
     attrs: Vec<syn::Attribute>,
     p: Option<PM<4901>>,
 }
+#[cfg(not(skip = "VR4"))]
 impl Observe for VR4 {
     fn observe(&self) -> V {
         let _ = &self.discriminant;
@@ -971,6 +1215,7 @@ impl Observe for VR4 {
     }
 }
 
+#[cfg(not(skip = "TR3"))]
 #[derive(FromTypeParam)]
 #[darling(attributes(a), forward_attrs(doc, keep))]
 pub struct TR3 {
@@ -979,17 +1224,20 @@ pub struct TR3 {
     attrs: AttrProbe,
     q: PM<4951>,
 }
+#[cfg(not(skip = "TR3"))]
 impl Observe for TR3 {
     fn observe(&self) -> V {
         V::Struct("TR3".into(), vec![("ident".into(), ident_val(&self.ident)), ("attrs".into(), self.attrs.observe()), ("q".into(), self.q.observe())])
     }
 }
 
+#[cfg(not(skip = "S1"))]
 fn di9_s1() -> S1 {
     S1 { a: PM(Tok::FromIdent("a".into())), b: None, c: PM(Tok::FromIdent("c".into())), d: PM(Tok::FromIdent("d".into())) }
 }
 
 // from_ident + allow_unknown_fields + flatten + supports sets + data with + forwarded attrs with
+#[cfg(not(any(skip = "DI9", skip = "S1")))]
 #[derive(FromDeriveInput)]
 #[darling(attributes(a), from_ident, allow_unknown_fields, supports(struct_any, enum_any), forward_attrs(doc))]
 pub struct DI9 {
@@ -1005,12 +1253,14 @@ pub struct DI9 {
     #[darling(with = pw::<5403>, and_then = pthen::<5403>)]
     w: PM<5403>,
 }
+#[cfg(not(any(skip = "DI9", skip = "S1")))]
 impl From<syn::Ident> for DI9 {
     fn from(ident: syn::Ident) -> Self {
         from_ident_seam(5410);
         DI9 { ident, attrs: AttrProbe(0), data: DataProbe, rest: di9_s1(), m: vec![], w: PM(Tok::FromIdent("w".into())) }
     }
 }
+#[cfg(not(any(skip = "DI9", skip = "S1")))]
 impl Observe for DI9 {
     fn observe(&self) -> V {
         V::Struct(
@@ -1027,11 +1277,13 @@ impl Observe for DI9 {
     }
 }
 
+#[cfg(not(any(skip = "FR1", skip = "VR5")))]
 fn vr5_map(v: VR5) -> VR5 {
     cmap::<5510, VR5>(v)
 }
 
 // container default + map + forwarded attrs with, on a variant receiver
+#[cfg(not(any(skip = "FR1", skip = "VR5")))]
 #[derive(FromVariant)]
 #[darling(attributes(a), forward_attrs(doc), map = vr5_map, default)]
 pub struct VR5 {
@@ -1043,6 +1295,7 @@ pub struct VR5 {
     #[darling(multiple)]
     m: Vec<PM<5502>>,
 }
+#[cfg(not(any(skip = "FR1", skip = "VR5")))]
 impl Default for VR5 {
     fn default() -> Self {
         container_default_seam(5520);
@@ -1055,6 +1308,7 @@ impl Default for VR5 {
         }
     }
 }
+#[cfg(not(any(skip = "FR1", skip = "VR5")))]
 impl Observe for VR5 {
     fn observe(&self) -> V {
         V::Struct(
@@ -1070,10 +1324,12 @@ impl Observe for VR5 {
     }
 }
 
+#[cfg(not(skip = "AT3"))]
 fn at3_then(v: AT3) -> darling::Result<AT3> {
     cthen::<5610, AT3>(v)
 }
 
+#[cfg(not(skip = "AT3"))]
 #[derive(FromAttributes)]
 #[darling(attributes(a), and_then = at3_then, allow_unknown_fields, default)]
 pub struct AT3 {
@@ -1083,7 +1339,9 @@ pub struct AT3 {
     #[darling(default = pdef::<5603>, and_then = pthen::<5603>)]
     t: PM<5603>,
 }
+#[cfg(not(skip = "AT3"))]
 observe_struct!(AT3 { p, mw, t });
+#[cfg(not(skip = "AT3"))]
 impl Default for AT3 {
     fn default() -> Self {
         container_default_seam(5620);
@@ -1091,10 +1349,12 @@ impl Default for AT3 {
     }
 }
 
+#[cfg(not(skip = "FR6"))]
 fn fr6_map(v: FR6) -> FR6 {
     cmap::<5710, FR6>(v)
 }
 
+#[cfg(not(skip = "FR6"))]
 #[derive(FromField)]
 #[darling(attributes(a), default, map = fr6_map)]
 pub struct FR6 {
@@ -1105,12 +1365,14 @@ pub struct FR6 {
     #[darling(skip)]
     sk: PM<5703>,
 }
+#[cfg(not(skip = "FR6"))]
 impl Default for FR6 {
     fn default() -> Self {
         container_default_seam(5720);
         FR6 { ident: None, p: Default::default(), t: Default::default(), sk: Default::default() }
     }
 }
+#[cfg(not(skip = "FR6"))]
 impl Observe for FR6 {
     fn observe(&self) -> V {
         V::Struct(
@@ -1125,8 +1387,10 @@ impl Observe for FR6 {
     }
 }
 
+#[cfg(not(any(skip = "AT1", skip = "AT4", skip = "S9")))]
 #[derive(FromAttributes)]
 pub struct AT4(AT1);
+#[cfg(not(any(skip = "AT1", skip = "AT4", skip = "S9")))]
 impl Observe for AT4 {
     fn observe(&self) -> V {
         self.0.observe()
@@ -1150,32 +1414,59 @@ pub fn run_elem_receiver(name: &str, input: &ElemInput) -> Option<Result<V, darl
         return Some(r);
     }
     Some(match (name, input) {
+        #[cfg(not(skip = "FR1"))]
         ("FR1", ElemInput::Field(f)) => ob(FR1::from_field(f)),
+        #[cfg(not(any(skip = "FR2", skip = "S1")))]
         ("FR2", ElemInput::Field(f)) => ob(FR2::from_field(f)),
+        #[cfg(not(skip = "FR3"))]
         ("FR3", ElemInput::Field(f)) => ob(FR3::from_field(f)),
+        #[cfg(not(skip = "FR4"))]
         ("FR4", ElemInput::Field(f)) => ob(FR4::from_field(f)),
+        #[cfg(not(skip = "FR5"))]
         ("FR5", ElemInput::Field(f)) => ob(FR5::from_field(f)),
+        #[cfg(not(skip = "VR3"))]
         ("VR3", ElemInput::Variant(v)) => ob(VR3::from_variant(v)),
+        #[cfg(not(skip = "VR4"))]
         ("VR4", ElemInput::Variant(v)) => ob(VR4::from_variant(v)),
+        #[cfg(not(any(skip = "FR1", skip = "VR5")))]
         ("VR5", ElemInput::Variant(v)) => ob(VR5::from_variant(v)),
+        #[cfg(not(skip = "FR6"))]
         ("FR6", ElemInput::Field(f)) => ob(FR6::from_field(f)),
+        #[cfg(not(any(skip = "DI9", skip = "S1")))]
         ("DI9", ElemInput::DeriveInput(d)) => ob(DI9::from_derive_input(d)),
+        #[cfg(not(skip = "AT3"))]
         ("AT3", ElemInput::Attributes(a)) => ob(AT3::from_attributes(a)),
+        #[cfg(not(any(skip = "AT1", skip = "AT4", skip = "S9")))]
         ("AT4", ElemInput::Attributes(a)) => ob(AT4::from_attributes(a)),
+        #[cfg(not(skip = "TR3"))]
         ("TR3", ElemInput::TypeParam(t)) => ob(TR3::from_type_param(t)),
+        #[cfg(not(skip = "TR2"))]
         ("TR2", ElemInput::TypeParam(t)) => ob(TR2::from_type_param(t)),
+        #[cfg(not(any(skip = "DI8", skip = "FR5", skip = "TR2", skip = "VR3")))]
         ("DI8", ElemInput::DeriveInput(d)) => ob(DI8::from_derive_input(d)),
+        #[cfg(not(skip = "DI7"))]
         ("DI7", ElemInput::DeriveInput(d)) => ob(DI7::from_derive_input(d)),
+        #[cfg(not(any(skip = "FR1", skip = "VR1")))]
         ("VR1", ElemInput::Variant(v)) => ob(VR1::from_variant(v)),
+        #[cfg(not(skip = "VR2"))]
         ("VR2", ElemInput::Variant(v)) => ob(VR2::from_variant(v)),
+        #[cfg(not(skip = "TR1"))]
         ("TR1", ElemInput::TypeParam(t)) => ob(TR1::from_type_param(t)),
+        #[cfg(not(any(skip = "DI1", skip = "FR1", skip = "S1", skip = "TR1", skip = "VR1")))]
         ("DI1", ElemInput::DeriveInput(d)) => ob(DI1::from_derive_input(d)),
+        #[cfg(not(any(skip = "DI2", skip = "FR2", skip = "S1", skip = "VR2")))]
         ("DI2", ElemInput::DeriveInput(d)) => ob(DI2::from_derive_input(d)),
+        #[cfg(not(skip = "DI3"))]
         ("DI3", ElemInput::DeriveInput(d)) => ob(DI3::from_derive_input(d)),
+        #[cfg(not(skip = "DI4"))]
         ("DI4", ElemInput::DeriveInput(d)) => ob(DI4::from_derive_input(d)),
+        #[cfg(not(any(skip = "DI1", skip = "DI5", skip = "FR1", skip = "S1", skip = "TR1", skip = "VR1")))]
         ("DI5", ElemInput::DeriveInput(d)) => ob(DI5::from_derive_input(d)),
+        #[cfg(not(skip = "DI6"))]
         ("DI6", ElemInput::DeriveInput(d)) => ob(DI6::from_derive_input(d)),
+        #[cfg(not(any(skip = "AT1", skip = "S9")))]
         ("AT1", ElemInput::Attributes(a)) => ob(AT1::from_attributes(a)),
+        #[cfg(not(any(skip = "AT2", skip = "E1", skip = "Rec")))]
         ("AT2", ElemInput::Attributes(a)) => ob(AT2::from_attributes(a)),
         _ => return None,
     })
